@@ -74,12 +74,15 @@ GetOrCreate(o, m, k, v) ==
 
 \* An operation is a record [op, k, v] (k = NONE, v = 0 when unused).
 \*   get   c[k]          getd  c.get(k)  (Mapping.get: None instead of KeyError, same refresh)
+\*   has   k in c        (Mapping.__contains__ is `try: self[k]`: a membership test refreshes too)
 \*   set   c[k] = v      del   del c[k]      clear  c.clear()     len  len(c)     keys  c.keys()
 \*   goc   get-or-create under one lock section (not a container method: the pool manager's use)
 \*   snap  observation of the complete recency order (harness-side probe; no effect)
 Apply(o, m, e) ==
     CASE e.op = "get"   -> GetItem(o, e.k, KEYERROR)
       [] e.op = "getd"  -> GetItem(o, e.k, NONE)
+      [] e.op = "has"   -> LET r == GetItem(o, e.k, "False") IN
+                           IF Has(o, e.k) THEN R(r.order, "True", {}, <<>>) ELSE r
       [] e.op = "set"   -> SetItem(o, m, e.k, e.v)
       [] e.op = "del"   -> DelItem(o, e.k)
       [] e.op = "clear" -> R(<<>>, NONE, {}, ValSeq(o))
@@ -89,7 +92,7 @@ Apply(o, m, e) ==
       [] e.op = "snap"  -> R(o, "<snap>", {}, <<>>)
 
 E(op, k, v) == [op |-> op, k |-> k, v |-> v]
-Ops == {E(op, k, 0) : op \in {"get", "getd", "del"}, k \in Keys}
+Ops == {E(op, k, 0) : op \in {"get", "getd", "has", "del"}, k \in Keys}
        \cup {E("set", k, v) : k \in Keys, v \in Values}
        \cup {E(op, NONE, 0) : op \in {"clear", "len", "keys"}}
 
@@ -130,22 +133,23 @@ Bound == Len(order) <= maxsize
 UniqueKeys == \A i, j \in 1..Len(order) : i # j => order[i].k # order[j].k
 
 Others(o, k) == SelectSeq(o, LAMBDA x : x.k # k)
-Mutating == {"get", "getd", "set", "del", "clear"}
+Lookups == {"get", "getd", "has"}
 
-\* a successful get / any set makes the key the most recently used one, and a get returns the
-\* value stored by the latest set
-Refresh == [][(/\ last'.op \in {"get", "getd", "set"}
+\* a successful lookup / any set makes the key the most recently used one, and a get returns
+\* the value stored by the latest set
+Refresh == [][(/\ last'.op \in Lookups \cup {"set"}
                /\ (last'.op = "set" \/ Has(order, last'.k)))
               => IF last'.op = "set" /\ maxsize = 0 THEN order' = <<>>
                  ELSE /\ order'[Len(order')].k = last'.k
                       /\ last'.op = "set" => order'[Len(order')].v = last'.v
                       /\ last'.op # "set" => /\ order'[Len(order')].v = order[Idx(order, last'.k)].v
-                                             /\ last'.res = ToString(order[Idx(order, last'.k)].v)]_vars
+                                             /\ last'.res = IF last'.op = "has" THEN "True"
+                                                            ELSE ToString(order[Idx(order, last'.k)].v)]_vars
 
 \* LRU eviction: the only operation that can remove a key it does not name is a set of an
 \* absent key on a full container, and the victim is the least recently used entry; the
 \* entries not named by an operation keep their relative recency order
-EvictsOldest == [][(last'.op \in {"get", "getd", "set", "del"})
+EvictsOldest == [][(last'.op \in Lookups \cup {"set", "del"})
                    => LET full == last'.op = "set" /\ ~Has(order, last'.k) /\ Len(order) >= maxsize /\ Len(order) > 0
                           keep == IF full THEN Tail(order) ELSE order IN
                       /\ Others(order', last'.k) = Others(keep, last'.k)
@@ -159,12 +163,13 @@ ExactlyOnce == [][SameBag(ValSeq(order) \o (IF last'.op = "set" THEN <<last'.v>>
 
 \* observations do not disturb the container; failed lookups change nothing
 ReadOnly == [][(\/ last'.op \in {"len", "keys"}
-                \/ (last'.op \in {"get", "getd", "del"} /\ ~Has(order, last'.k)))
+                \/ (last'.op \in Lookups \cup {"del"} /\ ~Has(order, last'.k)))
                => /\ order' = order /\ last'.disp = <<>>
                   /\ last'.op = "len" => last'.res = ToString(Len(order))
                   /\ last'.op = "keys" => last'.rk = KeySet(order)
                   /\ last'.op \in {"get", "del"} => last'.res = KEYERROR
-                  /\ last'.op = "getd" => last'.res = NONE]_vars
+                  /\ last'.op = "getd" => last'.res = NONE
+                  /\ last'.op = "has" => last'.res = "False"]_vars
 
 ClearEmpties == [][last'.op = "clear" => order' = <<>> /\ SameBag(last'.disp, ValSeq(order))]_vars
 DeleteRemoves == [][(last'.op = "del" /\ Has(order, last'.k))
